@@ -1293,6 +1293,7 @@ func runFollow(c FollowCase, root string) (violation string, stats map[string]in
 			how = "level-1 gap-fill file"
 		}
 		if why := check(fmt.Sprintf("after the follow loop applied the %s for TXID %d (%d -> %d pages)", how, target, prev, st.Commit), plain); why != "" {
+			stats["failed-step"] = i + 1
 			return why, stats
 		}
 		switch {
@@ -1628,11 +1629,17 @@ func main() {
 		res.Case(c.canon(), true)
 		res.Count(fmt.Sprintf("follow:ps=%d", c.PageSize))
 		for k, n := range stats {
-			res.Distribution["follow:"+k] += n
+			if k != "failed-step" {
+				res.Distribution["follow:"+k] += n
+			}
 		}
 		res.Sample(map[string]any{"kind": "follow", "page_size": c.PageSize, "initial": c.Initial, "steps": c.Steps, "seconds": secs})
 		if v != "" {
-			res.AddFinding("violation", "C17/follow-"+sigOf(v), v, map[string]any{"follow": c})
+			mc := c
+			if n := stats["failed-step"]; n > 0 && n <= len(c.Steps) {
+				mc.Steps = c.Steps[:n] // the steps after the failing one were never run
+			}
+			res.AddFinding("violation", "C17/follow-"+sigOf(v), v, map[string]any{"follow": mc, "original": c})
 		}
 	}
 	// evalPar runs the slow (~1 GiB each) cases concurrently: hook-level snapshot cases (each with
